@@ -77,7 +77,7 @@ class Tuple(AbstractSpace[tuple[Any, ...], None]):
         if not isinstance(other, Tuple):
             return False
 
-        return all(
+        return len(self.spaces) == len(other.spaces) and all(
             space == other_space
             for space, other_space in zip(self.spaces, other.spaces)
         )
